@@ -375,7 +375,7 @@ func TestVerifC19(t *testing.T) {
 		return
 	}
 	/* ---- Part 3: generated files, one process each, 16 at a time ---- */
-	total := c.Share(c.Pick(150, 2500))
+	total := c.Share(c.Pick(400, 2500))
 	type job struct {
 		n   int
 		cfg genConfig
